@@ -4,7 +4,7 @@
    single empty field F-C08-3 are gone with the defects: their full statements are theorems
    here; the former witnesses are kept as examples of the repaired behaviour.) *)
 From Verif Require Import Lib.Base Lib.Utf8 Model.Csv Proofs.CsvBase Proofs.CsvFuel Proofs.CsvRoundtrip
-  Proofs.CsvAccount Proofs.CsvChunks Proofs.CsvScanner Proofs.CsvRfc.
+  Proofs.CsvAccount Proofs.CsvChunks Proofs.CsvScanner Proofs.CsvRfc Proofs.CsvOutput.
 
 (* ------------------------------------------------------------------------- *)
 (* separator / comment validation: interp.validCSVSeparator, validateCSVInputConfig *)
@@ -126,6 +126,56 @@ Example C08_ex_roundtrip :
 Proof. vm_compute. split; reflexivity. Qed.
 Example C08_ex_valid_sep : valid_sep 233 /\ valid_sep 44 /\ valid_sep 9 /\ valid_sep 128512.
 Proof. repeat split; vm_compute; reflexivity. Qed.
+
+(* ------------------------------------------------------------------------- *)
+(* every printed row reaches its destination                                  *)
+
+(* "written by print in CSV/TSV output mode": whatever the destination of the print is - an
+   unbuffered writer, a *bufio.Writer, a file or command stream that embeds one, any stack of
+   buffered writers - after the end of the run the sink holds what it held (or had buffered)
+   before, followed by the text of every row printed to it, complete and in order.
+   [o_bufio] = the writer's dynamic type is *bufio.Writer (then it is one: a DBuf). *)
+Definition C08_output_full_statement : Prop :=
+  forall sep crlf o rows,
+    (o_bufio o = true -> exists size buf under, o_d o = DBuf size buf under /\ 16 <= size) ->
+    emit_rows sep crlf o rows = Ok (d_total (o_d o) ++ write_csv sep crlf rows).
+
+(* F-C08-5: a *bufio.Writer smaller than 4096 bytes is taken for "already buffered", but
+   csv.NewWriter wraps it in a private Writer that is never flushed: the row is lost *)
+Theorem C08_output_refuted : ~ C08_output_full_statement.
+Proof.
+  intros H. specialize (H 44 false (mkOut true (DBuf 16 [] (DRaw []))) [[[97]; [98]]]).
+  assert (X : emit_rows 44 false (mkOut true (DBuf 16 [] (DRaw []))) [[[97]; [98]]] =
+              Ok (d_total (DBuf 16 [] (DRaw [])) ++ write_csv 44 false [[[97]; [98]]])).
+  { apply H. intros _. exists 16, [], (DRaw []). split; [reflexivity | lia]. }
+  vm_compute in X. discriminate X.
+Qed.
+Print Assumptions C08_output_refuted.
+
+(* ... and holds for every other destination: not a *bufio.Writer (writeCSV then wraps it in
+   its scratch Writer and flushes that before returning), or one of at least 4096 bytes *)
+Theorem C08_output_partial : forall sep crlf o rows,
+  (o_bufio o = true -> exists size buf under, o_d o = DBuf size buf under /\ 4096 <= size) ->
+  emit_rows sep crlf o rows = Ok (d_total (o_d o) ++ write_csv sep crlf rows).
+Proof. exact emit_rows_complete. Qed.
+Print Assumptions C08_output_partial.
+
+(* a stack of bufio.Writers loses and reorders nothing; closing delivers everything *)
+Theorem C08_buffered_writes_complete : forall d p,
+  d_total (d_write d p) = d_total d ++ p /\ delivered (d_close d) = d_total d.
+Proof. intros d p. split; [apply d_total_write | apply delivered_close]. Qed.
+Print Assumptions C08_buffered_writes_complete.
+
+(* print > "file" (a stream embedding a 64 KiB bufio.Writer), appended to what the file held;
+   standard output as a 64 KiB *bufio.Writer; a row larger than every buffer *)
+Example C08_ex_destinations :
+  emit_rows 44 false (mkOut false (DBuf 65536 [] (DRaw [112; 10]))) [[[97]; [98]]; [[]]; [[99; 32; 100]]]
+    = Ok [112; 10; 97; 44; 98; 10; 34; 34; 10; 99; 32; 100; 10] /\
+  emit_rows 9 false (mkOut true (DBuf 65536 [] (DRaw []))) [[[97]; [98]]; [[]]]
+    = Ok [97; 9; 98; 10; 34; 34; 10] /\
+  emit_rows 44 false (mkOut false (DBuf 8 [] (DBuf 4 [] (DRaw [])))) [[repeat 120 20; [121]]; [[122]]]
+    = Ok (repeat 120 20 ++ [44; 121; 10; 122; 10]).
+Proof. vm_compute. repeat split; reflexivity. Qed.
 
 (* ------------------------------------------------------------------------- *)
 (* $0 is the record's own text                                                *)
